@@ -209,40 +209,51 @@ def r2_print_parse(ctx):
 
 def r3_refusals(ctx):
     init = ctx.func('path', 'X12Path.__init__')
-    raises = []
-    for n in ast.walk(init):
-        if isinstance(n, ast.If) and any(isinstance(s, ast.Raise) for s in n.body):
-            r = [s for s in n.body if isinstance(s, ast.Raise)][0]
-            cls = path_of(r.exc.func) if isinstance(r.exc, ast.Call) else path_of(r.exc)
-            raises.append((n.test, (cls or '').split('.')[-1], n))
-    ok = len(raises) == 2 and all(c == 'X12PathError' for _, c, _ in raises)
-    yield Ob('path:X12Path.__init__ has the two X12PathError refusals', ok, ctx.floc(init), '' if ok else 'raises: %s' % [(norm(t), c) for t, c, _ in raises])
+    # which path texts the constructor refuses, decided by constant propagation through it for every combination of parts
+    # (segment id, qualifier, element index, component index, 0-2 loop ids, absolute/relative); the compiled path regex
+    # is applied to the constant last component as the constant function it is
+    from ..absint import explore
+    pat, flags, _node = _rec_path(ctx)
+    rx = re.compile(pat, flags)
+    oracle = lambda t: rx.search(t)
+    funcs = {'X12Path.rec_path.search': oracle, 'self.rec_path.search': oracle, 'rec_path.search': oracle,
+             'X12Path.rec_path.match': lambda t: rx.match(t), 'self.rec_path.match': lambda t: rx.match(t)}
+    g = ctx.cfg(init)
+    rnodes = [nd for nd in g.nodes if nd.kind == 'raise']
+    classes = set()
+    for nd in rnodes:
+        exc = nd.ast.exc
+        cls = path_of(exc.func) if isinstance(exc, ast.Call) else path_of(exc)
+        classes.add((cls or '?').split('.')[-1])
+    ok = bool(rnodes) and classes == {'X12PathError'}
+    yield Ob('path:X12Path.__init__ has the two X12PathError refusals', ok, ctx.floc(init), '' if ok else 'raises: %s' % sorted(classes))
     if not ok:
         return
     bad = []
     n = 0
-    for seg, idv, ele, sub, nl in itertools.product((None, 'NM1'), (None, '1W'), (None, 1), (None, 2), (0, 1, 2)):
-        env = {'self.seg_id': seg, 'self.id_val': idv, 'self.ele_idx': ele, 'self.subele_idx': sub,
-               'self.loop_list': tuple('L' * i for i in range(1, nl + 1))}
+    for seg, idv, ele, sub, nl, absolute in itertools.product((None, 'NM1'), (None, '1W'), (None, 1), (None, 2), (0, 1, 2), (True, False)):
+        comp = (seg or '') + ('[%s]' % idv if idv else '') + ('%02d' % ele if ele else '') + ('-%d' % sub if sub else '')
+        parts = ['L%d' % i for i in range(1, nl + 1)] + ([comp] if comp else [])
+        text = ('/' if absolute else '') + '/'.join(parts)
+        hit = []
+
+        def on_node(nd, env):
+            if nd.kind == 'raise':
+                hit.append(nd)
+
+        def unk(nd, env):
+            raise AnalysisError('X12Path.__init__: a test cannot be decided for the path %r: %s' % (text, norm(nd.ast)))
         try:
-            got = any(bool(A.ev(t, env)) and all(bool(A.ev(pt, env)) == pol for pt, pol in A.path_condition(ifn, init)
-                                                 if A.free_paths(pt) <= set(env))
-                      for t, _, ifn in raises)
-        except A.NotClosed as e:
-            raise AnalysisError('X12Path.__init__: refusal condition not closed: %s' % e)
+            explore(g, {'path_str': text}, funcs=funcs, on_node=on_node, on_unknown=unk)
+        except RuntimeError as e:
+            raise AnalysisError('X12Path.__init__: %s' % e)
+        got = bool(hit)
         want = (seg is None and idv is not None) or (seg is None and (ele is not None or sub is not None) and nl > 0)
         n += 1
         if got != want:
-            bad.append('seg_id=%r qualifier=%r element=%r component=%r loops=%d: %s' % (seg, idv, ele, sub, nl, 'refused' if got else 'accepted'))
+            bad.append('%r (seg_id=%r qualifier=%r element=%r component=%r loops=%d): %s' % (text, seg, idv, ele, sub, nl, 'refused' if got else 'accepted'))
     yield Ob('path:X12Path.__init__ refusal conditions over all part combinations', not bad, ctx.floc(init),
              '' if not bad else bad[0], detail={'evaluated': n, 'counterexamples': bad[:5]})
-    # the raises come after the last component was removed from loop_list (they test what remains)
-    g = ctx.cfg(init)
-    dom = g.dominators()
-    dels = [nd for nd in g.nodes if nd.kind == 'stmt' and isinstance(nd.ast, ast.Delete) and 'self.loop_list[-1]' in norm(nd.ast)]
-    rnodes = [nd for nd in g.nodes if nd.kind == 'raise']
-    ok = bool(dels) and all(any(d.id in dom[r.id] for d in dels) for r in rnodes)
-    yield Ob('path:X12Path.__init__ refusals test the loops that remain after the designator', ok, ctx.floc(init), '' if ok else 'order of del / raise changed')
     # _parse_refdes
     fn = ctx.func('segment', 'Segment._parse_refdes')
     g = ctx.cfg(fn)
